@@ -40,13 +40,39 @@ def r1(ctx: Ctx) -> None:
             break
     sites = ctx.cg.sites_calling(UT)
     ctx.require(len(sites) >= 1, f"no caller of {UT}")
+
+    def extends_only(s) -> Optional[bool]:
+        """the site is `super().<same method>(<own parameters, unchanged>)` in an override of a Market subclass: True when it is
+        one unconditional top-level statement of that override (the clock moves exactly as in Market; what the override adds is
+        judged by the writer rules), False when it is such a call under a condition / loop / more than once, None otherwise"""
+        import ast as _a
+        g, c = s.caller, s.node
+        if not (g.cls is not None and g.cls.name != "Market" and ctx.program.is_subclass(g.cls.name, "Market") and isinstance(c, _a.Call) and isinstance(c.func, _a.Attribute)
+                and c.func.attr == g.name and isinstance(c.func.value, _a.Call) and isinstance(c.func.value.func, _a.Name) and c.func.value.func.id == "super" and not c.func.value.args):
+            return None
+        passed = [a for a in c.args] + [k.value for k in c.keywords]
+        names_ok = all(isinstance(a, _a.Name) and a.id in g.params for a in passed) and all(k.arg is None or (isinstance(k.value, _a.Name) and k.value.id == k.arg) for k in c.keywords)
+        top = [st for st in g.node.body if isinstance(st, _a.Expr) and st.value is c]
+        same = [x for x in _a.walk(g.node) if isinstance(x, _a.Call) and isinstance(x.func, _a.Attribute) and x.func.attr == g.name and isinstance(x.func.value, _a.Call) and isinstance(x.func.value.func, _a.Name) and x.func.value.func.id == "super"]
+        returns_before = any(isinstance(x, (_a.Return, _a.Raise)) for st in g.node.body[: g.node.body.index(top[0])] for x in _a.walk(st)) if top else True
+        return bool(names_ok and top and len(same) == 1 and not returns_before)
+
     for s in sites:
+        ext = extends_only(s)
+        if ext is True:
+            ctx.holds(s.caller, s.node, f"caller of {UT}", "an override that forwards to Market once, unconditionally, with its own arguments", s.caller.qualname)
+            continue
+        if ext is False:
+            ctx.unrec(s.caller, s.node, f"caller of {UT}", f"{s.caller.qualname} overrides the clock step and forwards to Market under a condition, more than once or with other arguments: not modelled")
+            continue
         if not caller_ok(ctx, s.caller, lambda g: g.qualname == UTM) and caller_ok(ctx, s.caller, lambda g: g.qualname == UTS):
             # the routine that steps all markets does one of the steps itself instead of going through the per-market routine
             ctx.unrec(s.caller, s.node, f"caller of {UT}", f"{UTS} steps a market directly; the rules decide the per-market routine {UTM} only")
             continue
         ctx.check(caller_ok(ctx, s.caller, lambda g: g.qualname == UTM), s.caller, s.node, f"caller of {UT}", UTM, s.caller.qualname)
     for s in ctx.cg.sites_calling("Market._set_time"):
+        if extends_only(s) is True:
+            continue  # an override of the setter forwarding to Market: still nobody in pams calls the setter
         ctx.violated(s.caller, s.node, "absolute clock setter is not used by the platform", "no caller of Market._set_time in pams", s.caller.qualname)
     for s in ctx.cg.sites_calling(UTM):
         ctx.check(caller_ok(ctx, s.caller, lambda g: g.qualname == UTS), s.caller, s.node, f"caller of {UTM}", UTS, s.caller.qualname)
